@@ -516,6 +516,9 @@ func (l *lowerer) service(s *Service) *dt.Node {
 	if s.Desc != "" {
 		body = append(body, dt.N("Description", dt.S(s.Desc)))
 	}
+	for _, m := range s.Meta {
+		body = append(body, metaNode(m))
+	}
 	for _, r := range s.Security {
 		body = append(body, l.security(r))
 	}
@@ -658,6 +661,9 @@ func (l *lowerer) httpEndpoint(m *Method) *dt.Node {
 	var b []*dt.Node
 	for _, r := range h.Routes {
 		b = append(b, dt.N(verbs[r.Verb], dt.S(r.Path)))
+	}
+	for _, mt := range h.Meta {
+		b = append(b, metaNode(mt))
 	}
 	if len(h.Path) > 0 && l.pick(3) == 1 {
 		// path parameters declared explicitly, ahead of the query parameters
